@@ -67,7 +67,18 @@ def make_source(rng):
     src = RDMs(vals.copy(), rdm_descriptors=rdesc, pattern_descriptors=pdesc,
                dissimilarity_measure='test', descriptors={'exp': 1})
     meta = dict(n_rdm=n_rdm, n_cond=n_cond, rgk=rgk, pgk=pgk, lk=lk, cont=cont, ruid=ruid, puid=puid,
-                rgrp=[rl[i] for i in rg_idx], pgrp=[pl[i] for i in pg_idx], vals=vals, zero_pairs=zero_pairs)
+                rgrp=[rl[i] for i in rg_idx], pgrp=[pl[i] for i in pg_idx], vals=vals, zero_pairs=zero_pairs,
+                derived=False)
+    if n_rdm >= 3 and n_cond >= 4 and rng.integers(3) == 0:
+        # the source is itself the result of subset / subset_pattern: its library-managed 'index' descriptors keep
+        # the positions in the larger object (not 0..n-1), as after any multi-step analysis
+        keep_r = sorted(int(i) for i in rng.choice(n_rdm, size=n_rdm - 1, replace=False))
+        keep_p = sorted(int(i) for i in rng.choice(n_cond, size=n_cond - 1, replace=False))
+        src = src.subset('uid', [ruid[i] for i in keep_r]).subset_pattern('puid', [puid[i] for i in keep_p])
+        meta.update(n_rdm=len(keep_r), n_cond=len(keep_p), ruid=[ruid[i] for i in keep_r], puid=[puid[i] for i in keep_p],
+                    rgrp=[meta['rgrp'][i] for i in keep_r], pgrp=[meta['pgrp'][i] for i in keep_p], derived=True)
+    meta['rindex'] = [int(v) for v in src.rdm_descriptors['index']]
+    meta['pindex'] = [int(v) for v in src.pattern_descriptors['index']]
     return src, meta
 
 
@@ -82,8 +93,8 @@ def check_sample(ctx, check, sig, sample, meta, rdm_sel, pat_sel, rdm_by, pat_by
     ruid_s = [int(v) for v in sample.rdm_descriptors['uid']]
     puid_s = [int(v) for v in sample.pattern_descriptors['puid']]
     # expected members with multiplicity
-    src_r = list(zip(meta['ruid'], meta['rgrp'] if rdm_by == 'grp' else meta['ruid']))
-    src_p = list(zip(meta['puid'], meta['pgrp'] if pat_by == 'pgrp' else meta['puid']))
+    src_r = list(zip(meta['ruid'], {'grp': meta['rgrp'], 'uid': meta['ruid'], 'index': meta['rindex']}[rdm_by]))
+    src_p = list(zip(meta['puid'], {'pgrp': meta['pgrp'], 'puid': meta['puid'], 'index': meta['pindex']}[pat_by]))
     if rdm_sel is None:
         exp_r = [u for u, _ in src_r]
     else:
@@ -169,12 +180,12 @@ def run_config(ctx, tap):
     rng = ctx.rng
     src, meta = make_source(rng)
     sig0 = dict(rdm_grouping=meta['rgk'], pattern_grouping=meta['pgk'], labels=meta['lk'],
-                container=meta['cont'])
+                container=meta['cont'], derived_source=meta['derived'])
     wit0 = dict(ruid=meta['ruid'], puid=meta['puid'], rgrp=meta['rgrp'], pgrp=meta['pgrp'])
     np.random.seed(int(rng.integers(2 ** 31)))
     n_draws = ctx.n(4, 8)
-    rdm_by = gen.pick(rng, ['grp', 'uid'])
-    pat_by = gen.pick(rng, ['pgrp', 'puid'])
+    rdm_by = gen.pick(rng, ['grp', 'uid', 'index'])      # 'index' is the library's default descriptor
+    pat_by = gen.pick(rng, ['pgrp', 'puid', 'index'])
     pred = RDMs(np.arange(src.dissimilarities.shape[1], dtype=float).reshape(1, -1) + 1,
                 pattern_descriptors={k: list(v) for k, v in src.pattern_descriptors.items()})
     before = src.dissimilarities.copy()
@@ -253,7 +264,8 @@ def run_config(ctx, tap):
         selp = [selp[0]]
     sig = dict(sig0, routine='subsample_pattern', form=form)
     wit = lambda **k: dict(wit0, routine='subsample_pattern', by=pat_by, value=selp, **k)  # noqa: E731
-    n_sel = sum(1 for g in (meta['pgrp'] if pat_by == 'pgrp' else meta['puid']) for v in selp if ref._key(g) == v)
+    n_sel = sum(1 for g in {'pgrp': meta['pgrp'], 'puid': meta['puid'], 'index': meta['pindex']}[pat_by]
+                for v in selp if ref._key(g) == v)
     if n_sel >= 2:
         ok, sample = ctx.guarded('subsample_pattern', sig, src.subsample_pattern, pat_by, argp, data=wit)
         if ok:
